@@ -52,7 +52,10 @@ def main():
     try:
         for pid in ids:
             t0 = time.time()
-            rc, out = sh([os.path.join(VERIF, "check"), pid, "--tier", tier], cwd=VERIF)
+            try:
+                rc, out = sh([os.path.join(VERIF, "check"), pid, "--tier", tier], cwd=VERIF, timeout=1500)
+            except subprocess.TimeoutExpired:
+                rc, out = 2, "TIMEOUT: the check did not finish within 1500 s"
             viol = [l for l in out.split("\n") if l.startswith("VIOLATION")]
             res["checks"][pid] = {"exit": rc, "violations": viol[:3], "no_input": any("no-failing-input-found" in v for v in viol),
                                   "wall": round(time.time() - t0, 1), "tail": out.strip().split("\n")[-1][:200]}
